@@ -169,6 +169,30 @@ func checkC05(r *run, c *ExtSeqCase) (CaseInfo, error) {
 			if err := invariant(i, what); err != nil {
 				return ci, err
 			}
+		case "fill":
+			// fill the profile towards its capacity: ids op.ID.. upwards (as many as op.Len says)
+			// each with a value of op.Seed%256 bytes; every accepted one enters the model
+			vl := int(op.Seed % 256)
+			for k := 0; k < op.Len; k++ {
+				id := uint8(int(op.ID) + k)
+				if id == 0 {
+					continue
+				}
+				val := expand(op.Seed+uint64(k), 0, vl)
+				if err := h.SetExtension(id, val); err == nil {
+					accepted++
+					if j := model.find(id); j >= 0 {
+						model[j].val = clone(val)
+						changed++
+					} else {
+						model = append(model, kv{id, clone(val)})
+					}
+				}
+			}
+			ci.class("fill")
+			if err := invariant(i, fmt.Sprintf("fill(%d ids from %d, %dB each)", op.Len, op.ID, vl)); err != nil {
+				return ci, err
+			}
 		case "del":
 			before := extSnapshot(&h)
 			err := h.DelExtension(op.ID)
@@ -273,9 +297,22 @@ func genExtSeqCase(t *rapid.T) *ExtSeqCase {
 		}
 	}
 	steps := rapid.IntRange(1, 25).Draw(t, "steps")
+	fillAt := -1 // one case in 60 fills the profile to capacity at some step (expensive: 64 KiB headers)
+	if rapid.IntRange(0, 59).Draw(t, "hasfill") == 0 {
+		fillAt = rapid.IntRange(0, steps-1).Draw(t, "fillat")
+		if steps > 8 {
+			steps = 8
+		}
+		if fillAt >= steps {
+			fillAt = steps - 1
+		}
+	}
 	usedIDs := []int{}
 	for i := 0; i < steps; i++ {
 		kind := rapid.SampledFrom([]string{"set", "set", "set", "del", "get", "wire"}).Draw(t, "kind")
+		if i == fillAt {
+			kind = "fill"
+		}
 		op := ExtOp{Kind: kind}
 		switch kind {
 		case "set", "del":
@@ -289,6 +326,10 @@ func genExtSeqCase(t *rapid.T) *ExtSeqCase {
 				op.Len = biased(t, "len", 0, 300, 0, 1, 2, 3, 4, 8, 15, 16, 17, 18, 254, 255, 256, 257)
 				op.Seed = rapid.Uint64().Draw(t, "seed")
 			}
+		case "fill":
+			op.ID = uint8(rapid.SampledFrom([]int{1, 1, 2, 200}).Draw(t, "fillfrom"))
+			op.Len = rapid.SampledFrom([]int{14, 15, 16, 254, 255}).Draw(t, "fillcount")
+			op.Seed = uint64(rapid.SampledFrom([]int{255, 255, 254, 253, 16, 1, 0}).Draw(t, "filllen")) + 256*uint64(rapid.IntRange(0, 1000).Draw(t, "fillseed"))
 		case "wire":
 			op.Seed = uint64(rapid.IntRange(0, 3).Draw(t, "continue")) // bit 0: continue on the decoded header, bit 1: header-only wire image
 		}
@@ -298,7 +339,7 @@ func genExtSeqCase(t *rapid.T) *ExtSeqCase {
 	return c
 }
 
-const ruleC05 = "rapid draws a start state (fresh, one-byte preset, two-byte preset, legacy preset with any profile, header decoded from a reference image) and 1-25 operations Set(id 0-255 biased to 0,1,14,15,16,255; value length 0-300 biased to 0,1,16,17,255,256)/Del/Get/Wire(Marshal, append payload, Unmarshal, optionally continue on the decoded header); oracle: ordered-map model that follows the return values (nil => applied, error => header observably unchanged incl. Marshal bytes), no panic, every accepted value survives the wire, Marshal may refuse only a legacy value that is not whole words. Non-trivial = sequence with an accepted Set, a replacing Set or effective Del, and a successful Wire after them; distinct = FNV-64 of the JSON case"
+const ruleC05 = "rapid draws a start state (fresh, one-byte preset, two-byte preset, legacy preset with any profile, header decoded from a reference image) and 1-25 operations Set(id 0-255 biased to 0,1,14,15,16,255; value length 0-300 biased to 0,1,16,17,255,256)/Del/Get/Wire(Marshal, with or without payload bytes behind the header, Unmarshal, optionally continue on the decoded header)/Fill(set 14-255 consecutive ids with values of up to 255 bytes: the profile filled to capacity, extension blocks up to 65536 bytes); oracle: ordered-map model that follows the return values (nil => applied, error => header observably unchanged incl. Marshal bytes), no panic, every accepted value survives the wire, Marshal may refuse only a legacy value that is not whole words. Non-trivial = sequence with an accepted Set, a replacing Set or effective Del, and a successful Wire after them; distinct = FNV-64 of the JSON case"
 
 func TestC05(t *testing.T) {
 	r := begin(t, "C05", "exploration", ruleC05)
